@@ -218,6 +218,8 @@ class InventoryFileReader:
             yield decompressor.decompress(self.buffer)
             self.buffer = b""
         yield decompressor.flush()
+        if not decompressor.eof:
+            raise ValueError("invalid inventory: truncated compressed stream")
 
     def read_compressed_lines(self) -> Iterator[str]:
         buf = b""
